@@ -74,6 +74,16 @@ def step32 (st : St) (cmd : List String) (got : String) : Option (St × Verdict)
         some (mut32 st x got (fun s => BSet.remove s n) (fun s => bstr (BSet.mem s n) ++ " "))
       else some (skipV st got)
     | none => some (skipV st got)
+  | ["addmanyfrom", x, v, n] =>
+    match nat? v, nat? n, st.bm[x]? with
+    | some v, some n, some s =>
+      if v ≥ U32 || n > 100000 then some (skipV st got)
+      else match BSet.nextValue s v with
+        | none => some (st, expect "none" got)
+        | some m =>
+          let vals := ((List.range (n + 1)).map fun i => m + 2 * i).filter (· < U32)
+          some (mut32 st x got (fun s => BSet.union s (ofVals vals)))
+    | _, _, _ => some (skipV st got)
   | "addmany" :: x :: vs =>
     match nats? vs with
     | some l => if l.all (· < U32) then some (mut32 st x got (fun s => BSet.union s (ofVals l)))
